@@ -458,6 +458,7 @@ def check(pid, tier, seed, only_random=False, extra=None):
         else:
             others[t] = others.get(t, 0) + 1
     nviol = 0
+    reruns, unrepro = 0, []
     for x, vs in sorted(mine.items()):
         first = vs[0]
         tpx = script_of[x][0].split()[2]
@@ -467,6 +468,16 @@ def check(pid, tier, seed, only_random=False, extra=None):
             if not any(f["what"] in k for k in known):
                 known.append("property=%s %s" % (pid, f["what"]))
             continue
+        # a verdict is reported only if the execution shows it again when it is run alone, with nothing else running beside
+        # it (the executions of a run share the machine with fifteen others and with TLC)
+        if reruns < 25 and nviol < 5:
+            reruns += 1
+            rtag = "%s_rr" % tag
+            _d2, tr2 = conn.run_scripts(binary, [script_of[x]], rtag, nproc=1)
+            vl2, _n2, _b2 = conn.validate_parallel(tr2, rtag, nbatch=1)
+            if not any(v2["tag"] == first["tag"] for v2 in vl2):
+                unrepro.append("%s on %s at step %d (execution %d): %s" % (first["tag"], tpx, first["n"], x, first["detail"][:120]))
+                continue
         nviol += 1
         if nviol <= 5:
             body = "# %s %s step %d expected/observed: %s\n# replay: bin/check %s --replay <this file>\n" % (
@@ -477,6 +488,8 @@ def check(pid, tier, seed, only_random=False, extra=None):
             violations.append(("conformance", "%s on %s at step %d: %s" % (first["tag"], tpx, first["n"], first["detail"]), rp))
     if nviol > 5:
         notes.append("%d further violating executions not written out" % (nviol - 5))
+    for u in unrepro[:10]:
+        notes.append("not repeated by the sequential re-run, not reported: " + u)
 
     extra_cov = {}
     if extra is None and pid == "C16":
